@@ -77,6 +77,16 @@ def probe_suite():
     add('verdict.constants', lambda: m.FormulaGrader(answers='e^(i*pi)')(None, '-1'))
     add('funcs.matrix_only', lambda: m.FormulaGrader(answers='1')(None, 'det([[1,0],[0,1]])'))
     add('undefined.var', lambda: ev('zzz+1')[0])
+    add('string.quiet.validation', lambda: m.StringGrader(
+        answers='cat', validation_pattern='[a-z]+', explain_validation=None)(None, '123'))
+    add('string.quiet.minimums', lambda: m.StringGrader(
+        accept_any=True, min_length=5, explain_minimums=None)(None, 'ab'))
+    add('string.wrong', lambda: m.StringGrader(answers='cat')(None, 'dog'))
+    add('interval.brackets', lambda: m.IntervalGrader(answers='[1,2)')(None, '<1,2>'))
+    add('interval.expect', lambda: m.IntervalGrader()('[1,2)', '[1,2)'))
+    add('singlelist.expect', lambda: m.SingleListGrader(subgrader=m.StringGrader())('a, b; c', 'a, b; c'))
+    add('userfn.arity', lambda: m.FormulaGrader(answers='h(1,2)', user_functions={'h': lambda x, y: x + y})(
+        None, 'h(2,1)'))
     # class-level scopes of the math graders: metric suffixes are off unless asked for,
     # constants and functions are the documented defaults
     add('suffix.formula.off', lambda: m.FormulaGrader(answers='2000')(None, '2k'))
